@@ -232,7 +232,7 @@ fn print_into(i: &I, d: usize, s: &mut String) {
 // ------------------------------------------------------------------ service model
 
 /// What a function returns; a pure function of (spec, function name, args).
-#[derive(Clone, Debug, PartialEq)]
+#[derive(Clone, Debug, PartialEq, serde::Serialize, serde::Deserialize)]
 pub enum Ret {
     /// unique string "f:<h>"
     Str,
